@@ -1,6 +1,6 @@
 (* Route area — correspondence functions evaluated by the generated case files. *)
 From FoxBase Require Import Bytes.
-From FoxRoute Require Import Node Lookup HostPort Spec Tree.
+From FoxRoute Require Import Node Lookup HostPort Spec Guard Tree.
 Open Scope char_scope.
 
 Definition kv_eqb (a b : kv) : bool := bytes_eqb (fst a) (fst b) && bytes_eqb (snd a) (snd b).
@@ -39,7 +39,7 @@ Definition res_obs (r : lres) : option obs :=
   end.
 
 Definition model_lookup (c : lcase) (lazy : bool) : lres :=
-  let '(r, q) := c in roots_lookup big_fuel r (q_method q) (strip_host_port (q_rawhost q)) (q_path q) lazy [] [].
+  let '(r, q) := c in roots_lookup_g big_fuel r (q_method q) (strip_host_port (q_rawhost q)) (q_path q) lazy [] [].
 
 Definition lmodel_agrees (c : lcase) : bool :=
   let q := snd c in
@@ -65,7 +65,7 @@ Definition method_patterns (r : roots) (m : bytes) : list bytes :=
 
 Definition spec_obs (c : lcase) : obs :=
   let '(r, q) := c in
-  match spec_lookup (method_patterns r (q_method q)) (strip_spec (q_rawhost q)) (q_path q) with
+  match spec_lookup_g (method_patterns r (q_method q)) (strip_spec (q_rawhost q)) (q_path q) with
   | SNone => ONone
   | SDirect p ps => OFound p false ps
   | STsr p ps => OFound p true ps
